@@ -100,14 +100,49 @@ func atomNames(atoms []*core.Atom) []string {
 	return out
 }
 
-// sigFor builds the signature of a violation: oracle clause + the minimal atom names.
+// sigFor builds the signature of a violation: oracle clause + the shape of the minimal atoms
+// (schema node, key kinds, value kind). The replay file keeps the concrete atoms.
 func sigFor(clause string, atoms []*core.Atom) string {
 	s := clause + ":"
 	for i, a := range atoms {
 		if i > 0 {
 			s += "+"
 		}
-		s += a.Name
+		s += shapeName(a)
+	}
+	return s
+}
+
+func valueKind(v core.Value) string {
+	if v.IsLL() {
+		if len(v.Elems()) == 0 {
+			return "ll-empty"
+		}
+		return "ll-" + v.Elems()[0].Kind()
+	}
+	return v.Kind()
+}
+
+func shapeName(a *core.Atom) string {
+	s := ""
+	for _, st := range a.Steps {
+		s += "/" + st.Field
+		if st.Key != nil {
+			s += "["
+			for i, k := range st.Key {
+				if i > 0 {
+					s += ","
+				}
+				s += valueKind(k)
+			}
+			s += "]"
+		}
+		if st.Elem {
+			s += "[+]"
+		}
+	}
+	if a.Val != core.NoValue {
+		s += "=" + valueKind(a.Val)
 	}
 	return s
 }
